@@ -9,7 +9,7 @@ from vf.engine import Violation, InvalidCase
 from vf.fixtures import check, wone_of
 
 PROPERTY = "C12"
-BUDGET = {"quick": 2400, "thorough": 6000}
+BUDGET = {"quick": 5000, "thorough": 15000}
 RULE = ("Continuous and grid worlds (SpaceWorld, DiscreteWorld, LineWorld, GridWorld; wrap on/off; unequal extents, zero-extent "
         "axes), 0-6 agents placed (coincident agents; agents exactly on box faces BY CONSTRUCTION: query = agent position +- "
         "leeway), some moved (move_to) or removed afterwards; 1-6 queries INTERLEAVED with further population changes (move, leave, a "
@@ -82,6 +82,20 @@ def clampin(kind, v, ext_axis):
     return v if kind == "space" else (v // 8) * 8
 
 
+HAIR = Fraction(1, 2 ** 40)      # continuous worlds: coordinates a hair off the eighths grid (exactly representable, sums stay exact)
+
+
+def hairs(kind, pos, hair, ext):
+    """per-axis hair (-1, 0, +1) that keeps a placement legal: not below 0, not beyond the far edge of a positive axis"""
+    out = []
+    for ax, (v, h) in enumerate(zip(pos, (list(hair or []) + [0, 0, 0])[:3])):
+        h = max(-1, min(1, int(h))) if kind == "space" else 0
+        if ext[ax] > 0 and ((h < 0 and v <= 0) or (h > 0 and Fraction(v, 8) >= ext[ax])):
+            h = 0
+        out.append(h)
+    return out
+
+
 def run_case(case):
     model, env, ext, wrap = build(case)
     kind = case["kind"]
@@ -90,20 +104,31 @@ def run_case(case):
         pos = [clampin(kind, int(v), ext[ax]) for ax, v in enumerate(_p3(a["pos"]))]
         ag = Agent(f"a{i}", model)
         try:
-            env.add_agent(ag, *[coord(kind, v) for v in pos])
+            env.add_agent(ag, *[coord(kind, v) + float(h * HAIR) if h else coord(kind, v) for v, h in zip(pos, hairs(kind, pos, a.get("hair"), ext))])
         except Exception as e:
             raise Violation("placement-raised", f"placing agent {i} at {pos} (eighths) raised {type(e).__name__}: {e}")
         agents.append(ag)
     resident = list(agents)
     labels = set()
+    world2 = None
+    if len(case["agents"]) % 2:
+        # a second world of the same kind, created afterwards and alive throughout, whose agents carry the SAME ids and all stand
+        # in the origin: worlds are independent of each other
+        model2, world2, _, _ = build(case)
+        for i in range(min(len(agents), 4)):
+            world2.add_agent(Agent(f"a{i}", model2), 0, 0, 0)
+        labels.add("second-world-alive")
     counter = [len(agents)]
     expect_pos = {}
 
-    def remember(ag, pos):
-        expect_pos[id(ag)] = tuple(Fraction(int(v), 8) if kind == "space" else Fraction(int(v) // 8) for v in pos)
+    def remember(ag, pos, hair=(0, 0, 0)):
+        expect_pos[id(ag)] = tuple((Fraction(int(v), 8) + h * HAIR) if kind == "space" else Fraction(int(v) // 8) for v, h in zip(pos, hair))
 
     for ag, a_ in zip(agents, case["agents"]):
-        remember(ag, [clampin(kind, int(v), ext[ax]) for ax, v in enumerate(_p3(a_["pos"]))])
+        pos_ = [clampin(kind, int(v), ext[ax]) for ax, v in enumerate(_p3(a_["pos"]))]
+        remember(ag, pos_, hairs(kind, pos_, a_.get("hair"), ext))
+        if any(hairs(kind, pos_, a_.get("hair"), ext)):
+            labels.add("off-grid-coordinates")
 
     def change(mv):
         if mv.get("add") is not None:                      # a newcomer joins (possibly right after somebody left)
@@ -120,6 +145,16 @@ def run_case(case):
         if not resident:
             return
         ag = resident[int(mv["a"]) % len(resident)]
+        if mv.get("shift") is not None:
+            # a relative move by eighths (fractional also in grid worlds: agents wander continuously over a grid). Where it
+            # lands is C08's business; the query must find the agent wherever its position component says it stands
+            try:
+                env.move(ag, *[int(v) / 8.0 for v in _p3(mv["shift"])])
+            except Exception as e:
+                raise Violation("move-raised", f"move by {mv['shift']} (eighths) raised {type(e).__name__}: {e}")
+            expect_pos[id(ag)] = tuple(Fraction(v) for v in ag[PositionComponent].xyz())
+            labels.add("shifted-agent" + ("-off-cell" if kind != "space" and any(c.denominator != 1 for c in expect_pos[id(ag)]) else ""))
+            return
         if mv.get("remove"):
             env.remove_agent(ag.id)
             resident.remove(ag)
@@ -132,7 +167,7 @@ def run_case(case):
                 labels.add("rejoined-agent")
         else:
             pos = [clampin(kind, int(v), ext[ax]) for ax, v in enumerate(_p3(mv["to"]))]
-            positive = [ax for ax in range(3) if ext[ax] > 0]
+            positive = [ax for ax in range(3) if ext[ax] >= 1]      # (what a world thinner than 1 does with far moves is not C12's business)
             if mv.get("bad_axis") is not None and positive:
                 # an absolute move that is in range on the earlier axes and out of range on one axis: rejected, nothing moves
                 ax = positive[int(mv["bad_axis"]) % len(positive)]
@@ -144,6 +179,20 @@ def run_case(case):
                     labels.add("rejected-move")
                     return
                 raise Violation("out-of-range-move-accepted", f"move_to {bad} was accepted")
+            thin = [ax for ax in range(3) if 0 < ext[ax] < 1]
+            if mv.get("far") and kind == "space" and thin:
+                # continuous worlds thinner than 1 on an axis: an absolute move beyond the far edge is left to the world (the
+                # tree accepts it); wherever the agent then stands, the positional query must find it there
+                for ax in thin:
+                    pos[ax] = int(_p3(mv["to"])[ax])
+                try:
+                    env.move_to(ag, *[coord(kind, v) for v in pos])
+                except IndexError:
+                    labels.add("rejected-move")
+                    return
+                remember(ag, pos)
+                labels.add("agent-beyond-thin-world-edge" if any(Fraction(pos[ax], 8) > ext[ax] for ax in thin) else "moved-agent")
+                return
             try:
                 env.move_to(ag, *[coord(kind, v) for v in pos])
             except Exception as e:
@@ -162,7 +211,12 @@ def run_case(case):
         if what == "c":
             change(q)
             continue
-        pt = [Fraction(int(v), 8) for v in q["q"]]
+        pt = [Fraction(int(v), 8) + (max(-1, min(1, int(h))) * HAIR if kind == "space" else 0)
+              for v, h in zip(q["q"], (list(q.get("qhair") or []) + [0, 0, 0])[:3])]
+        if q.get("rel") is not None and resident:       # the query point is given relative to where an agent stands NOW
+            anchor = resident[int(q["rel"]) % len(resident)][PositionComponent]
+            pt = [Fraction(a_) + Fraction(int(v) % 5 - 2, 8) * (1 if q.get("rel_off") else 0) for a_, v in zip(anchor.xyz(), q["q"])]
+            labels.add("query-around-current-position")
         lee = Fraction(int(q.get("lee", 0)), 8)
         axl = [Fraction(int(v), 8) for v in q.get("axl", (0, 0, 0))]
         kwargs = {}
@@ -203,7 +257,14 @@ def run_case(case):
             if in_seam:
                 seam.append(ag.id)
         try:
-            got = env.get_agents_at(float(pt[0]), float(pt[1]), float(pt[2]), **kwargs)
+            if q.get("positional"):         # all seven arguments by position (omitted leeways are their documented default 0)
+                got = env.get_agents_at(float(pt[0]), float(pt[1]), float(pt[2]), kwargs.get("leeway", 0.0), kwargs.get("x_leeway", 0.0),
+                                        kwargs.get("y_leeway", 0.0), kwargs.get("z_leeway", 0.0))
+            elif q.get("kw_point"):         # the query point by keyword too, trailing zero coordinates left to their defaults
+                pkw = {n_: float(v_) for n_, v_ in zip(("x_pos", "y_pos", "z_pos"), pt) if v_ != 0}
+                got = env.get_agents_at(**pkw, **kwargs)
+            else:
+                got = env.get_agents_at(float(pt[0]), float(pt[1]), float(pt[2]), **kwargs)
         except Exception as e:
             raise Violation("query-raised", f"query {q} raised {type(e).__name__}: {e}")
         if not isinstance(got, list):
@@ -240,6 +301,10 @@ def run_case(case):
         raise Violation("environment-disturbed", f"environment holds {[a.id for a in env]}, expected {[a.id for a in resident]}")
     if len(agents) > 32:
         labels.add("population>32")
+    if world2 is not None:
+        got2 = [a.id for a in world2.get_agents_at(0, 0, 0)]
+        if got2 != [f"a{i}" for i in range(min(len(agents), 4))]:
+            raise Violation("other-world-disturbed", f"a second world whose agents all stand in the origin answers get_agents_at(0, 0, 0) with {got2}")
     return {"nontrivial": nontrivial, "labels": sorted(labels) + [kind, "wrap" if wrap else "nowrap"], "excluded": masked}
 
 
@@ -249,7 +314,7 @@ def strategy(tier):
         kind = draw(st.sampled_from(["space", "space", "discrete", "grid", "line"]))
         wrap = draw(st.booleans())
         if kind == "space":
-            ext = [draw(st.sampled_from([0, 8, 20, 40, 64, 100])) for _ in range(3)]
+            ext = [draw(st.sampled_from([0, 8, 20, 40, 64, 100, 3, 4, 7])) for _ in range(3)]
             if ext[0] == 0 and draw(st.booleans()):
                 ext[0] = 40
         elif kind == "discrete":
@@ -273,6 +338,8 @@ def strategy(tier):
                 agents.append({"pos": list(draw(st.sampled_from(agents))["pos"])})       # coincident
             else:
                 agents.append({"pos": [agent_coord(ax) for ax in range(3)]})
+            if kind == "space" and draw(st.integers(0, 3)) == 0:
+                agents[-1]["hair"] = [draw(st.sampled_from([0, 0, 1, -1])) for _ in range(3)]
         moves = draw(st.lists(wone_of(
             st.fixed_dictionaries({"a": st.integers(0, 5), "to": st.tuples(c, c, c).map(list)}),
             st.fixed_dictionaries({"a": st.integers(0, 5), "remove": st.just(True)})), max_size=3))
@@ -292,14 +359,27 @@ def strategy(tier):
             else:
                 q = [draw(st.integers(-3, 16)) * step for _ in range(3)]
             queries.append({"q": q, "lee": lee, "axl": axl, "pass_zero": draw(st.booleans())})
+            conv = draw(st.sampled_from(["mixed", "mixed", "positional", "kw_point"]))
+            if conv != "mixed":
+                queries[-1][conv] = True
+            if kind == "space" and draw(st.integers(0, 3)) == 0:
+                queries[-1]["qhair"] = [draw(st.sampled_from([0, 0, 1, -1])) for _ in range(3)]
         script = []
         for q in queries:
             for _ in range(draw(st.sampled_from([0, 0, 1, 2]))):
-                how = draw(st.sampled_from(["move", "remove", "swap", "rejoin", "add"]))
+                how = draw(st.sampled_from(["move", "remove", "swap", "rejoin", "add", "shift", "shift"]))
                 pos3 = [draw(c) if ext[ax] > 0 else 0 for ax in range(3)]
                 a = draw(st.integers(0, 7))
                 if how == "move":
-                    script.append({"c": {"a": a, "to": pos3, "bad_axis": draw(st.sampled_from([None, None, 0, 1, 2, 3, 4, 5]))}})
+                    if kind == "space" and any(0 < e_ < 8 for e_ in ext) and draw(st.booleans()):
+                        script.append({"c": {"a": a, "to": pos3, "far": True}})
+                        q = dict(q, rel=a, rel_off=draw(st.booleans()))
+                    else:
+                        script.append({"c": {"a": a, "to": pos3, "bad_axis": draw(st.sampled_from([None, None, 0, 1, 2, 3, 4, 5]))}})
+                elif how == "shift":
+                    script.append({"c": {"a": a, "shift": [draw(st.sampled_from([0, 0, 4, -4, 12, -12, 3, 100, -100, 8, -8])) for _ in range(3)]}})
+                    if draw(st.booleans()):
+                        q = dict(q, rel=a, rel_off=draw(st.booleans()))
                 elif how == "remove":
                     script.append({"c": {"a": a, "remove": True}})
                 elif how == "rejoin":
